@@ -82,6 +82,19 @@ func (t *runTarget) Evaluate(engine runner.Engine) error {
 		depsUpToDate = false
 	}
 
+	// The body of a function target sees its dependencies, sources and generated files as ordered lists,
+	// so reordering or repeating an entry is a change even though the set of dependencies is the same.
+	// A record without a digest was written by an older version, which did not track this at all: it is
+	// taken as unchanged rather than re-running every target once after an upgrade.
+	attrs := ""
+	if f, ok := t.target.(*function); ok {
+		attrs = f.attrs()
+		if depsUpToDate && info.Attrs != "" && info.Attrs != attrs {
+			outOfDateDeps = append(outOfDateDeps, "(order of dependencies, sources or generated files)")
+			depsUpToDate = false
+		}
+	}
+
 	// Check whether the target is up-to-date.
 	upToDate, reason, diff, err := t.target.upToDate()
 	if err != nil {
@@ -150,6 +163,7 @@ func (t *runTarget) Evaluate(engine runner.Engine) error {
 		Dependencies: depData,
 		Data:         info.Data,
 		Runs:         info.Runs,
+		Attrs:        attrs,
 	}
 	t.changed = changed
 	if changed {
